@@ -1,7 +1,9 @@
 package swapsim
 
 import (
+	"encoding/hex"
 	"encoding/json"
+	"fmt"
 	"sort"
 	"strings"
 	"testing"
@@ -9,6 +11,7 @@ import (
 	"github.com/elementsproject/peerswap/swap"
 	"pgregory.net/rapid"
 
+	"verifharness/sim"
 	"verifharness/stats"
 )
 
@@ -101,5 +104,124 @@ func TestC09OnlyCounterparty(t *testing.T) {
 			}
 		}
 		col.Case(h.Key(), nt, h.Ops, h.classList()...)
+	})
+}
+
+// TestC09ThirdPartyNoise: a third party must not be able to influence a swap at all - not its record, and
+// not what happens to it next. One scripted honest swap (initiator, chain) is run to quiescence twice:
+// once undisturbed, once with well-formed (or content-invalid) messages of every type carrying the swap's
+// id injected by a third party at generated points, towards either node. Both runs must end in the same
+// states and the two nodes must have exchanged the same sequence of message types.
+func TestC09ThirdPartyNoise(t *testing.T) {
+	col := stats.Get("C09.noise")
+	rapid.Check(t, func(t *rapid.T) {
+		typ := rapid.SampledFrom([]string{"out", "in"}).Draw(t, "type")
+		chain := rapid.SampledFrom([]string{"btc", "lbtc"}).Draw(t, "chain")
+		type noise struct {
+			step   int
+			target string
+			mtype  int
+			bad    bool
+		}
+		var plan []noise
+		for i, n := 0, rapid.IntRange(1, 6).Draw(t, "noiseCount"); i < n; i++ {
+			plan = append(plan, noise{step: rapid.IntRange(0, 14).Draw(t, "noiseStep"), target: rapid.SampledFrom([]string{"alice", "bob"}).Draw(t, "noiseTarget"),
+				mtype: rapid.SampledFrom(allTypes).Draw(t, "noiseType"), bad: rapid.IntRange(0, 3).Draw(t, "noiseBad") == 0})
+		}
+		run := func(withNoise bool) (states string, traffic string, ops []string) {
+			h := newHist(t, HistCfg{Chains: []string{chain}, NoInitialSwap: true})
+			defer h.Close()
+			var sm *swap.SwapStateMachine
+			var err error
+			h.W.Step(h.A, func() {
+				if typ == "out" {
+					sm, err = h.A.Svc.SwapOut(h.B.Id, chain, "100x1x0", h.A.Id, 1_000_000, 20_000)
+				} else {
+					sm, err = h.A.Svc.SwapIn(h.B.Id, chain, "100x1x0", h.A.Id, 1_000_000, 20_000)
+				}
+			})
+			if err != nil || sm == nil {
+				t.Fatalf("harness: start: %v", err)
+			}
+			id := sm.SwapId.String()
+			key := hex.EncodeToString(sim.KeyFromName("noise").PubKey().SerializeCompressed())
+			idle := 0
+			for i := 0; i < 60 && idle < 2; i++ {
+				if withNoise {
+					for _, nz := range plan {
+						if nz.step != i {
+							continue
+						}
+						target := h.A
+						if nz.target == "bob" {
+							target = h.B
+						}
+						// a node that does not know the swap yet is outside this check: a request that squats
+						// an id is simply a new swap there, and a later request with that id is refused as the
+						// property demands (id reuse)
+						if recOf(target, id) == nil {
+							h.opf("noise-skipped(%s does not know the swap yet)", nz.target)
+							continue
+						}
+						payload := buildMessage(t, nz.mtype, id, "100x1x0", chain, key)
+						if nz.bad {
+							var x map[string]interface{}
+							if json.Unmarshal(payload, &x) == nil {
+								for _, f := range []string{"pubkey", "privkey", "tx_id"} {
+									if _, ok := x[f]; ok {
+										x[f] = "abcd"
+									}
+								}
+								payload, _ = json.Marshal(x)
+							}
+						}
+						target.Deliver(h.Mallory.Id, nz.mtype, payload)
+						h.opf("noise(%s,%d,bad=%v)", nz.target, nz.mtype, nz.bad)
+					}
+				}
+				// answers addressed to the third party are not part of the two-party run (and must not block
+				// the honest environment's in-order delivery)
+				for _, m := range h.W.PendingMsgs() {
+					if m.To == h.Mallory.Id {
+						h.W.Drop(m)
+					}
+				}
+				before, tl := len(h.Ops), h.W.TraceLen()
+				h.actProgress()
+				if len(h.Ops) == before && h.W.TraceLen() == tl {
+					idle++
+				} else {
+					idle = 0
+				}
+			}
+			var st []string
+			for _, n := range h.nodes() {
+				cur := "none"
+				if rec := recOf(n, id); rec != nil {
+					cur = string(rec.Current)
+				}
+				st = append(st, n.Name+"="+cur)
+			}
+			var tr []string
+			for _, m := range h.W.Sent {
+				if m.To == h.Mallory.Id {
+					continue // answers to the third party itself (cancel for an unknown / foreign swap)
+				}
+				tr = append(tr, fmt.Sprintf("%s:%d", m.From, m.Type))
+			}
+			return strings.Join(st, ","), strings.Join(tr, " "), h.Ops
+		}
+		refStates, refTraffic, _ := run(false)
+		gotStates, gotTraffic, ops := run(true)
+		desc := fmt.Sprintf("type=%s chain=%s noise=%v", typ, chain, plan)
+		if gotStates != refStates {
+			col.Violation(t, "C09/third-party-changed-outcome", "%s: undisturbed run ends in [%s], with third-party messages it ends in [%s]\nops: %v", desc, refStates, gotStates, ops)
+			return
+		}
+		if gotTraffic != refTraffic {
+			col.Violation(t, "C09/third-party-changed-traffic", "%s: messages between the two nodes differ\n undisturbed: %s\n with noise:  %s\nops: %v", desc, refTraffic, gotTraffic, ops)
+			return
+		}
+		col.Case(desc, true, map[string]interface{}{"type": typ, "chain": chain, "noise": len(plan), "end": refStates}, "end:"+refStates)
 	})
 }
